@@ -271,4 +271,5 @@ def obligations(ctx: Ctx):
     from props import lexical as _LX
 
     obs += _LX.parse_receipt_obs(P)
+    obs.append(Ob(f"{P}.F4.frontmatter", "F", "frontmatter stripping cuts and glues on the same literal newline: receipt lines behind frontmatter count LF only", ["octave_mcp.core.parser:_strip_yaml_frontmatter"], _LX.ob_frontmatter_split_join))
     return obs
